@@ -200,4 +200,34 @@ def xTopologyAll (c : Circuit) : Model := xTopology c (List.range c.cells.length
 /-- `IncrNetModel::yTopology(circuit)` -/
 def yTopologyAll (c : Circuit) : Model := yTopology c (List.range c.cells.length)
 
+/-! ### the two models of `DetailedPlacer`
+
+`DetailedPlacer` (src/place_detailed/place_detailed.{hpp,cpp}) holds `xtopo_` and `ytopo_`, built by its
+constructor from `IncrNetModel::xTopology(circuit)` / `yTopology(circuit)`; the objective every move of
+detailed placement is judged by is `value() = xtopo_.value() + ytopo_.value()`, and every move ends in
+`updateCellPos(c, pos)` = `xtopo_.updateCellPos(c, pos.x); ytopo_.updateCellPos(c, pos.y);`. -/
+
+structure PlacerModels where
+  x : Model
+  y : Model
+deriving Repr, DecidableEq, Inhabited
+
+namespace PlacerModels
+
+/-- the member initialisers `xtopo_(IncrNetModel::xTopology(circuit)), ytopo_(IncrNetModel::yTopology(circuit))` -/
+def build (c : Circuit) : PlacerModels := ⟨xTopologyAll c, yTopologyAll c⟩
+
+/-- `DetailedPlacer::value()` -/
+def value (p : PlacerModels) : Int := p.x.value + p.y.value
+
+/-- `DetailedPlacer::updateCellPos(c, pos)` -/
+def updateCellPos (p : PlacerModels) (cell : Nat) (x y : Int) : PlacerModels :=
+  ⟨p.x.updateCellPos cell x, p.y.updateCellPos cell y⟩
+
+/-- a history of position updates `(cell, x, y)` -/
+def run (p : PlacerModels) (ops : List (Nat × Int × Int)) : PlacerModels :=
+  ops.foldl (fun p o => p.updateCellPos o.1 o.2.1 o.2.2) p
+
+end PlacerModels
+
 end ColoVerif.IncrNet
